@@ -348,6 +348,9 @@ func parseTextWebVTT(i string, sa *StyleAttributes) (o Line) {
 	// Create tokenizer
 	tr := html.NewTokenizer(strings.NewReader(i))
 
+	// Inline timestamp waiting for its text: a tag may stand between the two
+	var startAt time.Duration
+
 	// Loop
 	for {
 		// Get next tag
@@ -409,27 +412,33 @@ func parseTextWebVTT(i string, sa *StyleAttributes) (o Line) {
 			}
 
 			// Append items
-			o.Items = append(o.Items, parseTextWebVTTTextToken(styleAttributes, string(tr.Raw()))...)
+			var items []LineItem
+			items, startAt = parseTextWebVTTTextToken(styleAttributes, string(tr.Raw()), startAt)
+			o.Items = append(o.Items, items...)
 		}
 	}
 	return
 }
 
-func parseTextWebVTTTextToken(sa *StyleAttributes, line string) (ret []LineItem) {
+// parseTextWebVTTTextToken splits a text token at its inline timestamps. startAt is the timestamp left
+// pending by the previous text token, pendingStartAt is the one this token ends with, if any.
+func parseTextWebVTTTextToken(sa *StyleAttributes, line string, startAt time.Duration) (ret []LineItem, pendingStartAt time.Duration) {
 	// split the line by inline timestamps
 	indexes := webVTTRegexpInlineTimestamp.FindAllStringSubmatchIndex(line, -1)
 
 	if len(indexes) == 0 {
 		return []LineItem{{
 			InlineStyle: sa,
+			StartAt:     startAt,
 			Text:        unescapeHTML(line),
-		}}
+		}}, 0
 	}
 
 	// get the text before the first timestamp
 	if s := line[:indexes[0][0]]; strings.TrimSpace(s) != "" {
 		ret = append(ret, LineItem{
 			InlineStyle: sa,
+			StartAt:     startAt,
 			Text:        unescapeHTML(s),
 		})
 	}
@@ -441,7 +450,7 @@ func parseTextWebVTTTextToken(sa *StyleAttributes, line string) (ret []LineItem)
 			endIndex = indexes[i+1][0]
 		}
 		s := line[match[1]:endIndex]
-		if strings.TrimSpace(s) == "" {
+		if strings.TrimSpace(s) == "" && i+1 < len(indexes) {
 			continue
 		}
 
@@ -449,6 +458,12 @@ func parseTextWebVTTTextToken(sa *StyleAttributes, line string) (ret []LineItem)
 		t, err := parseDurationWebVTT(line[match[2]:match[3]])
 		if err != nil {
 			log.Printf("astisub: parsing webvtt duration %s failed, ignoring: %v", line[match[2]:match[3]], err)
+		}
+
+		// The text of the last timestamp comes with a following token
+		if strings.TrimSpace(s) == "" {
+			pendingStartAt = t
+			continue
 		}
 
 		ret = append(ret, LineItem{
